@@ -69,8 +69,16 @@ def perturbations(rng, op, k, sizes, guards, all_ops, tier):
                 s2[gi] = nv
                 out.append((f"size[{gi}]={lab}", op, k, s2))
     foreign = max(all_ops) + 1 if all_ops else 1
-    for o2, lab in ((foreign, "foreign"), (0x3FFF, "0x3fff"), (0x4000, "0x4000"), (0x7FFF, "0x7fff"), (0x10000 | op, "modifier-bit")):
-        if o2 not in all_ops:
+    # unknown method ids: next free one, the boundaries of the id space, and every single bit
+    # of the 16-bit id set on top of a known op (an id that differs from a declared one in one
+    # bit must still be unknown)
+    ops2 = [(foreign, "foreign"), (0x3FFF, "0x3fff"), (0x4000, "0x4000"), (0x7FFF, "0x7fff"), (0x10000 | op, "modifier-bit")]
+    ops2 += [(op | (1 << bit), f"bit{bit}") for bit in range(2, 16)]
+    ops2 += [(0xFFFD, "0xfffd"), (0x8000, "0x8000")]
+    for o2, lab in ops2:
+        if (o2 & 0xFFFF) in (0xFFFE, 0xFFFF):
+            continue                    # Object_OP_retain / Object_OP_release are defined operations
+        if (o2 & 0xFFFF) not in all_ops and o2 not in all_ops:
             out.append((f"op={lab}", o2, k, list(sizes)))
     # a combined one: wrong counts AND wrong size AND foreign op
     if guards:
@@ -78,10 +86,12 @@ def perturbations(rng, op, k, sizes, guards, all_ops, tier):
         if guards[0][0] < len(s2):
             s2[guards[0][0]] = guards[0][1] + 3
         out.append(("combined", op, k ^ 1, s2))
-    if tier == "quick" and len(out) > 20:
+    if tier == "quick" and len(out) > 24:
         keep = [out[0]] + (rng.sample(shifts, min(3, len(shifts))) if shifts else [])
+        opsl = [x for x in out if x[0].startswith("op=")]
+        keep += rng.sample(opsl, min(5, len(opsl)))
         rest = [x for x in out[1:] if x not in keep]
-        out = keep + rng.sample(rest, 20 - len(keep))
+        out = keep + rng.sample(rest, max(0, 24 - len(keep)))
     res = []
     for lab, o2, k2, s2 in out:
         c2 = unpack(k2)
